@@ -830,6 +830,11 @@ func (f *STFS) Rename(oldname, newname string) error {
 		f.onHeader,
 	)
 	if err == nil {
+		// Renaming an entry to itself changes nothing
+		if target.Name == source.Name {
+			return nil
+		}
+
 		if target.Typeflag != source.Typeflag {
 			return os.ErrExist
 		}
